@@ -120,7 +120,8 @@ def run_calls(name: str, bounds, prec, rem, bs: int, seed: int, ncalls: int, rng
         pts, losses = history(space, n0, rng, extreme and name not in ("GaussianProcessSampler", "RandomForestSampler", "CORSSampler"),
                               pair=name == "BestBatchSampler")
         if extreme and name in ("GaussianProcessSampler", "RandomForestSampler", "CORSSampler"):
-            losses[rng.randrange(len(losses))] = rng.choice([1e39, 1e300, -1e39])       # finite extremes only
+            # finite extremes, and now and then an infinite one (these samplers may refuse it: then the history must be intact)
+            losses[rng.randrange(len(losses))] = rng.choice([1e39, 1e300, -1e39, float("inf")])
         spy = {}
         if watch and hasattr(s, "fit"):
             of, op = s.fit, s.predict
